@@ -58,8 +58,9 @@ def f_class_cpp_if(r, idx):
 def f_callback(r, idx):
     out = []
     for k in range(r.randrange(1, 3)):
-        np_ = r.choice([0, 1, 2, 3, 4, 5, 4, 5])
-        params = _scalar_params(r, np_, long_names=r.random() < 0.8)
+        # the first callback is always long (4 or 5 parameters with long names): its declaration exceeds any line length
+        np_ = r.choice([4, 5]) if k == 0 else r.choice([0, 1, 2, 3, 4, 5])
+        params = _scalar_params(r, np_, long_names=(k == 0 or r.random() < 0.7))
         cb = "%s (*%s)(%s)" % (r.choice(["int", "double", "void"]),
                               r.choice(["rhs_function", "op", "user_supplied_callback_function"]),
                               ", ".join(params) if params else "void")
